@@ -349,11 +349,24 @@ def normalise_guard(cond, value, dty="bool"):
     return [("truthy", t, truth)]
 
 
-def facts_at(ctx, bb):
+def facts_at(ctx, bb, _depth=0):
+    """dominating branch facts of block bb; a closure body additionally inherits the facts that
+    hold where the parent hands it to its consumer (and what the consumer itself guarantees:
+    `cond.then(|| ..)` runs the closure only when cond is true)"""
     out = []
     for (cond, val, d, dty) in guards(ctx, bb):
         for f in normalise_guard(cond, val, dty):
             out.append(f + (d,))
+    if ctx.parent is not None and _depth < 4 and ctx.body.kind == "Closure":
+        pb = ctx.consumer[0] if ctx.consumer else ctx.site_bb
+        if pb is not None:
+            for f in facts_at(ctx.parent, pb, _depth + 1):
+                out.append(f[:-1] + (("parent", f[-1]),))
+            if ctx.consumer and ctx.consumer[1] in (("bool", "then"),):
+                t = ctx.parent.body.term(pb)
+                cond = operand_tree(ctx.parent, t["args"][0])
+                for f in normalise_guard(cond, "1", "bool"):
+                    out.append(f + (("parent", pb),))
     return out
 
 
@@ -592,6 +605,11 @@ def expand(facts, t, depth=0):
             pay = ("v:Ok", "f:0") if tag[0] == "Result" else ("v:Some", "f:0")
             for r in apply_fn(facts, a[2], [tproj(x, pay)], depth + 1):
                 out.add(r)
+        return out
+    if tag == ("bool", "then") and len(a) == 2:
+        out = {NONE}
+        for r in apply_fn(facts, a[1], [], depth + 1):
+            out.add(("agg", "Option::Some", (r,), ()))
         return out
     if tag in (("Option", "unwrap_or"),) and len(a) == 2:
         out = set()
